@@ -661,5 +661,116 @@ theorem lphFromEthernet_short (g : Mem) (n : Nat) (h : n < 14) :
     lphFromEthernet g n = .error { req := 14, len := n, src := .slice, layer := .ethernet2Header, off := 0 } := by
   simp [lphFromEthernet, eth2FromSlice, h]
 
+/-! ### H. the ether-type doors leave the link field as it was (`None`) -/
+
+theorem phIpPart_link (g : Mem) (o0 o : Nat) (r : Packet) (ipr : Except PErr IpR) (h : Headers)
+    (hh : phIpPart g o0 o r ipr = .ok h) : h.p.link = r.link := by
+  unfold phIpPart at hh
+  split at hh
+  · cases hh
+  · split at hh
+    · cases hh
+    · cases hh; rfl
+
+theorem phNet_link (g : Mem) (o0 et o l : Nat) (r : Packet) (pay : Pay) (h : Headers)
+    (hh : phNet g o0 et o l r pay = .ok h) : h.p.link = r.link := by
+  unfold phNet at hh
+  split at hh
+  · exact phIpPart_link _ _ _ _ _ _ hh
+  · split at hh
+    · exact phIpPart_link _ _ _ _ _ _ hh
+    · split at hh
+      · split at hh
+        · cases hh
+        · cases hh; rfl
+      · cases hh; rfl
+
+theorem phLoop_link (g : Mem) (o0 n et o l : Nat) (src : LenSource) (r : Packet) (pay : Pay) (h : Headers)
+    (hh : phLoop g o0 n et o l src r pay = .ok h) : h.p.link = r.link := by
+  induction n generalizing et o l src r pay with
+  | zero =>
+    unfold phLoop at hh
+    simp only [ite_self] at hh
+    exact phNet_link _ _ _ _ _ _ _ _ hh
+  | succ n ih =>
+    unfold phLoop at hh
+    simp only at hh
+    split at hh
+    · split at hh
+      · cases hh
+      · (have t := ih _ _ _ _ _ _ hh; exact t)
+    · split at hh
+      · split at hh
+        · cases hh
+        · cases hh
+        · split at hh
+          · (have t := ih _ _ _ _ _ _ hh; exact t)
+          · cases hh; rfl
+        · cases hh; rfl
+      · exact phNet_link _ _ _ _ _ _ _ _ hh
+
+theorem phFromEtherType_link (g : Mem) (et o l : Nat) (h : Headers)
+    (hh : phFromEtherType g et o l = .ok h) : h.p.link = none :=
+  phLoop_link _ _ _ _ _ _ _ _ _ _ hh
+
+theorem lphTransport_link (g : Mem) (ip : IpR) (r1 : Packet) (off' : Nat) :
+    (lphTransport g ip r1 off').p.link = r1.link := by
+  unfold lphTransport
+  simp only
+  repeat' split
+  all_goals rfl
+
+theorem lphAddIp_link (g : Mem) (off o l : Nat) (r : Packet) (h : Headers)
+    (hh : lphAddIp g off o l r = .ok h) : h.p.link = r.link := by
+  unfold lphAddIp at hh
+  split at hh
+  · cases hh
+  · simp only at hh
+    split at hh
+    · cases hh; rfl
+    · cases hh; rfl
+    · split at hh
+      · cases hh; rfl
+      · cases hh; exact lphTransport_link _ _ _ _
+
+theorem lphNet_link (g : Mem) (off et o l : Nat) (r : Packet) (pay : Pay) :
+    (lphNet g off et o l r pay).p.link = r.link := by
+  unfold lphNet
+  split
+  · split
+    · rename_i hh; exact lphAddIp_link _ _ _ _ _ _ hh
+    · rfl
+    · rfl
+  · split
+    · split <;> rfl
+    · rfl
+
+theorem lphLoop_link (g : Mem) (n off et o l : Nat) (src : LenSource) (r : Packet) (pay : Pay) :
+    (lphLoop g n off et o l src r pay).p.link = r.link := by
+  induction n generalizing off et o l src r pay with
+  | zero =>
+    unfold lphLoop
+    simp only [ite_self]
+    exact lphNet_link _ _ _ _ _ _ _
+  | succ n ih =>
+    unfold lphLoop
+    simp only
+    split
+    · split
+      · rfl
+      · (rw [ih]; rfl)
+    · split
+      · split
+        · rfl
+        · rfl
+        · split
+          · (rw [ih]; rfl)
+          · rfl
+        · rfl
+      · exact lphNet_link _ _ _ _ _ _ _
+
+theorem lphFromEtherType_link (g : Mem) (et o l : Nat) : (lphFromEtherType g et o l).p.link = none :=
+  lphLoop_link _ _ _ _ _ _ _ _ _
+
 end EpModel.Lemmas.HeadersShift
 
